@@ -8,7 +8,7 @@ ID = "C10"
 RULE = ("Mode G over an adversarial id/bounds grammar, enumerated completely: top node with 1..2 (3 in a sub-family) children, each a leaf "
         "(id in {x,y,a,b,ab,A(=top),B,C}, bounds from a menu with equal-sum pairs (0,3)/(1,2), the hash(-1)==hash(-2) pair (-1,5)/(-2,5) and "
         "plain differences) or a compound (id B/C/generated, sign/value in {(+,1),(+,2),(-,-1),(-,-2),(-,1),(+,-1)}, 1..2 children incl. a leaf with a box symmetric around 0, optionally nested), "
-        "plus wrapper families that reuse the same object / an equal copy / a different definition of one id under two parents, self "
+        "plus a family of generated-id coincidences under DIFFERENT parents (+(ab,c) vs +(a,bc) ...), plus wrapper families that reuse the same object / an equal copy / a different definition of one id under two parents, self "
         "references and 2-/3-cycles through ids. oracle: soundness errors()==[] => reference validator (own traversal, compares ids and "
         "(lo,hi) tuples and (sign,value,children) directly, never hashes); completeness on models whose ids are pairwise distinct or whose "
         "equal ids carry identical records. non-trivial = distinct model that the reference rejects")
@@ -75,6 +75,19 @@ def small_b_menu(n_sets=12):
     return [comp_spec("B", s, v, [leaf_spec(*c) for c in cs]) for (s, v) in SV for cs in childsets]
 
 
+GEN_SETS = [("a", "b"), ("ab",), ("ab", "c"), ("a", "bc"), ("abc",), ("a", "b", "c"), ("a1",), ("a",)]
+
+
+def gen_menu():
+    """Compounds WITHOUT explicit id whose generated ids coincide (child ids, value and sign are concatenated without separator):
+    +(a,b)>=1 / +(ab)>=1, +(ab,c) / +(a,bc) / +(abc) / +(a,b,c), +(a1)>=1 / +(a)>=11."""
+    out = []
+    for (s, v) in SV + [(1, 11)]:
+        for cs in GEN_SETS:
+            out.append(comp_spec(None, s, v, [leaf_spec(c, (0, 1)) for c in cs]))
+    return out
+
+
 def build(spec, memo):
     """memo: dict spec->object when sharing identical specs as ONE object, or None for fresh copies."""
     if memo is not None and spec in memo:
@@ -137,6 +150,8 @@ def shards(tier):
     out += [("pairs", lo, min(n, lo + step)) for lo in range(0, n, step)]
     nb = len(small_b_menu())
     out += [("wrap", lo, min(nb, lo + 8)) for lo in range(0, nb, 8)]
+    ng = len(gen_menu())
+    out += [("wrapg", lo, min(ng, lo + 6)) for lo in range(0, ng, 6)]
     out += [("triples", lo, min(len(triple_menu(tier)), lo + 2)) for lo in range(0, len(triple_menu(tier)), 2)]
     return out
 
@@ -170,6 +185,15 @@ def run_shard(desc, acc, tier):
                     for extra in (None, ("x", (0, 1)), ("x", (0, 3))):
                         D = comp_spec("D", 1, 1, [sb[j]] + ([leaf_spec(*extra)] if extra else []))
                         check((sb[i], D), (1, 2), share, acc, {"kind": kind, "i": [i, j], "extra": extra, "share": share})
+    elif kind == "wrapg":
+        gm = gen_menu()
+        for i in range(lo, hi):
+            for j in range(len(gm)):
+                for share in (True, False):
+                    for extra in (None, ("x", (0, 1))):
+                        D = comp_spec("D", 1, 1, [gm[j]] + ([leaf_spec(*extra)] if extra else []))
+                        E = comp_spec("E", 1, 1, [gm[i], leaf_spec("y", (0, 1))])
+                        check((E, D), (1, 2), share, acc, {"kind": kind, "i": [i, j], "extra": extra, "share": share})
     elif kind == "triples":
         tm = triple_menu(tier)
         for i in range(lo, hi):
@@ -225,6 +249,14 @@ def replay(case, acc):
     share = case["share"]
     if kind in ("single", "pairs"):
         check(tuple(m[i] for i in case["i"]), tuple(case["top"]), share, acc, case)
+    elif kind == "wrapg":
+        gm = gen_menu()
+        extra = case["extra"]
+        if extra:
+            extra = (extra[0], tuple(extra[1]))
+        D = comp_spec("D", 1, 1, [gm[case["i"][1]]] + ([leaf_spec(*extra)] if extra else []))
+        E = comp_spec("E", 1, 1, [gm[case["i"][0]], leaf_spec("y", (0, 1))])
+        check((E, D), (1, 2), share, acc, case)
     elif kind == "wrap":
         sb = small_b_menu()
         extra = case["extra"]
